@@ -1192,9 +1192,106 @@ def run_c13(tier, budget, rnd) -> StreamResult:
     return res
 
 
+
+def replay_c11_search(inp: dict):
+    """C11 replay of an exhaustive-search case: the search is run again on the real code from the recorded starting
+    knowledge, for the recorded process count(s) and for 1 process, and judged by the property's oracle: every set of at
+    most k unknown coalitions exactly once, gap = gap of a fresh game knowing exactly start ∪ set, same for every count."""
+    from incomplete_cooperative.gameplay import get_exploitabilities_of_action_sequences
+    BOUNDS, Coalition, _, ICG, gaps = _mods()
+    n, k, table, start, cls, gapname = inp["n"], inp.get("k"), inp["values"], inp["start"], inp["computer"], inp["gap"]
+    procs = inp.get("processes", 1)
+    plist = sorted({1, *(procs if isinstance(procs, list) else [procs]), *([inp["other_processes"]] if "other_processes" in inp else [])})
+    fresh = Fresh(n, cls, gapname)
+    full = full_game(n, table)
+    unknown = [c for c in range(2 ** n) if c not in start]
+    kk = len(unknown) if k is None else k
+    want = sorted(sorted(s) for i in range(min(kk, len(unknown)) + 1) for s in itertools.combinations(unknown, i))
+    msgs, bad, ref = [], False, None
+    for p_ in plist:
+        g = ICG(n, BOUNDS[cls])
+        ks = [Coalition(c) for c in start]
+        g.set_known_values(full.get_values(ks), ks)
+        try:
+            with warnings.catch_warnings():
+                warnings.simplefilter("ignore")
+                out = list(get_exploitabilities_of_action_sequences(g, full, fresh.gapf, max_size=k, processes=p_))
+                out2 = list(get_exploitabilities_of_action_sequences(g, full, fresh.gapf, max_size=k, processes=p_))
+        except Exception as e:       # noqa: BLE001
+            msgs.append(f"processes={p_}: the search raised {type(e).__name__}: {e}")
+            bad = True
+            continue
+        seqs = [[c.id for c in s_] for s_, _ in out]
+        vals = [float(v) for _, v in out]
+        if sorted(sorted(s_) for s_ in seqs) != want or any(len(set(s_)) != len(s_) for s_ in seqs):
+            msgs.append(f"processes={p_}: {len(seqs)} sets reported, {len(want)} sets of at most {kk} unknown coalitions exist; "
+                        f"missing {[w for w in want if w not in [sorted(x) for x in seqs]][:3]}")
+            bad = True
+        wrong = [(s_, v, fresh.gap(table, set(start) | set(s_))) for s_, v in zip(seqs, vals)
+                 if v != fresh.gap(table, set(start) | set(s_))]
+        if wrong:
+            msgs.append(f"processes={p_}: reported gap of {wrong[0][0]} is {wrong[0][1]}, the game knowing exactly start ∪ set has {wrong[0][2]}")
+            bad = True
+        if ([[c.id for c in s_] for s_, _ in out2], [float(v) for _, v in out2]) != (seqs, vals):
+            msgs.append(f"processes={p_}: a second search on the same game object gives a different result")
+            bad = True
+        if ref is None:
+            ref = (p_, seqs, vals)
+        elif (seqs, vals) != ref[1:]:
+            msgs.append(f"the result for {p_} processes differs from the result for {ref[0]}")
+            bad = True
+    return bad, "\n".join(msgs) or "the replayed search satisfies C11 on this input"
+
+
+def replay_c11_best(inp: dict):
+    """C11 replay of a best-states case: replayable generator with the recorded sampled games, the environment stepped as
+    recorded, `get_best_exploitability` run again, every size judged against the brute-force minimum mean gap."""
+    from incomplete_cooperative.icg_gym import ICG_Gym
+    from incomplete_cooperative.run.best_states import get_best_exploitability
+    BOUNDS, Coalition, minimal_game_coalitions, ICG, gaps = _mods()
+    n, steps, reps, procs, cls, gapname = inp["n"], inp["max_steps"], inp["repetitions"], inp["processes"], inp["computer"], inp["gap"]
+    sampled, extra = inp["sampled_games"], inp.get("stepped_before_search") or []
+    fresh = Fresh(n, cls, gapname)
+    start = sorted(set(G.minimal_ids(n)) | set(extra))
+    explorable = [c for c in range(2 ** n) if c not in start]
+    tables = [sampled[0], sampled[0]] + list(sampled)         # ICG_Gym's constructor consumes two draws
+    msgs, bad = [], False
+    for genkind, gencls in (("new object per call", ListGen), ("one buffer object refilled in place", BufferGen)):
+        env = ICG_Gym(ICG(n, BOUNDS[cls]), gencls(n, tables), minimal_game_coalitions(n), fresh.gapf, done_after_n_actions=steps)
+        for c_ in extra:
+            env.step([x.id for x in env.explorable_coalitions].index(c_))
+        try:
+            with warnings.catch_warnings():
+                warnings.simplefilter("ignore")
+                rows, acts = get_best_exploitability(env, steps, reps, fresh.gapf, processes=procs)
+        except Exception as e:       # noqa: BLE001
+            msgs.append(f"[{genkind}] get_best_exploitability raised {type(e).__name__}: {e}")
+            bad = True
+            continue
+        for size in range(min(steps, len(explorable)) + 1):
+            cands = {s_: [fresh.gap(t, set(start) | set(s_)) for t in sampled] for s_ in itertools.combinations(explorable, size)}
+            mn = min(float(np.mean(np.array(c))) for c in cands.values())
+            got = [float(x) for x in rows[size]]
+            set_ = tuple(sorted(int(a) for a in acts[size]))
+            if len(set(set_)) != size or set_ not in cands:
+                msgs.append(f"[{genkind}] size {size}: reported set {list(set_)} is not a set of {size} still-unknown coalitions")
+                bad = True
+            elif got != cands[set_]:
+                msgs.append(f"[{genkind}] size {size}: reported row {got} ≠ gaps {cands[set_]} of the reported set {list(set_)}")
+                bad = True
+            elif float(np.mean(np.array(got))) != mn:
+                msgs.append(f"[{genkind}] size {size}: reported mean gap {float(np.mean(np.array(got)))} but the minimum over all sets is {mn}")
+                bad = True
+    return bad, "\n".join(msgs) or "the replayed best-states call satisfies C11 on this input"
+
+
 def replay(prop: str, payload: dict):
     """Re-run a C12 replay whose input names a real `ModelInstance` run; → (violated, message)."""
     inp = payload.get("input") or {}
+    if prop == "C11" and "values" in inp and "start" in inp:
+        return replay_c11_search(inp)
+    if prop == "C11" and "sampled_games" in inp and "max_steps" in inp:
+        return replay_c11_best(inp)
     if prop != "C12" or inp.get("source") != "ModelInstance.get_env":
         return False, "this replay holds the complete failing input; no re-runner for it"
     from incomplete_cooperative.evaluation import evaluate
